@@ -489,10 +489,10 @@ pub fn run(ctx: &Ctx) {
             }
         });
         let mut inputs_done = 0u64;
-        let mut narrowed = false;
         let mut part_calls = 0u64;
         let mut part_nontrivial = 0u64;
         let mut part_exec = 0u64;
+        let mut failed: Vec<(u64, u64, ChildOutcome)> = Vec::new();
         for (a, b, o) in results.into_inner().unwrap() {
             match &o.done {
                 Some(d) => {
@@ -509,41 +509,56 @@ pub fn run(ctx: &Ctx) {
                         });
                     }
                 }
-                None => {
-                    // the child died or hung: narrow the block down to one input (once per part)
-                    if narrowed {
-                        ctx.set("exhaustive", json!(false));
-                        continue;
-                    }
-                    narrowed = true;
-                    let block = o.last_at.unwrap_or(a);
-                    let block_end = (block + step).min(b);
-                    let narrow = run_child(tier, part, block, block_end, 1, Duration::from_secs(45));
-                    if narrow.done.is_some() {
-                        ctx.machinery_error(format!(
-                            "part {}: child for {}..{} ended with `{}` but the block {}..{} completes when re-run alone",
-                            part, a, b, o.status, block, block_end
-                        ));
-                        ctx.set("exhaustive", json!(false));
-                        continue;
-                    }
-                    let idx = narrow.last_at.unwrap_or(block);
-                    let bytes = part_input(part, tier, idx);
-                    let kind = if narrow.timed_out { "hang" } else { "abort" };
-                    ctx.report(Violation {
-                        class: format!("{}/{}", kind, part),
-                        summary: format!(
-                            "child process {} on input #{} of part {} ({}): {:?}",
-                            if narrow.timed_out { "did not terminate within 45 s" } else { "died" },
-                            idx,
-                            part,
-                            narrow.status,
-                            String::from_utf8_lossy(&bytes[..bytes.len().min(120)])
-                        ),
-                        replay: json!({"part": part, "index": idx, "bytes_hex": hex(&bytes)}),
-                        rank: idx,
-                    });
-                    ctx.set("exhaustive", json!(false));
+                None => failed.push((a, b, o)),
+            }
+        }
+        if !failed.is_empty() {
+            ctx.set("exhaustive", json!(false));
+            // children died or hung: narrow every such block down to one input, all blocks in parallel
+            let narrows: Vec<(u64, u64, String, ChildOutcome)> = std::thread::scope(|s| {
+                let hs: Vec<_> = failed
+                    .iter()
+                    .map(|(a, b, o)| {
+                        let block = o.last_at.unwrap_or(*a);
+                        let block_end = (block + step).min(*b);
+                        let status = o.status.clone();
+                        s.spawn(move || (block, block_end, status, run_child(tier, part, block, block_end, 1, Duration::from_secs(45))))
+                    })
+                    .collect();
+                hs.into_iter().filter_map(|h| h.join().ok()).collect()
+            });
+            let mut confirmed = 0;
+            for (block, block_end, status, narrow) in &narrows {
+                if narrow.done.is_some() {
+                    continue;
+                }
+                confirmed += 1;
+                let idx = narrow.last_at.unwrap_or(*block);
+                let bytes = part_input(part, tier, idx);
+                let kind = if narrow.timed_out { "hang" } else { "abort" };
+                ctx.report(Violation {
+                    class: format!("{}/{}", kind, part),
+                    summary: format!(
+                        "child process {} on input #{} of part {} ({}; first run of the block {}..{}: {}): {:?}",
+                        if narrow.timed_out { "did not terminate within 45 s" } else { "died" },
+                        idx,
+                        part,
+                        narrow.status,
+                        block,
+                        block_end,
+                        status,
+                        String::from_utf8_lossy(&bytes[..bytes.len().min(120)])
+                    ),
+                    replay: json!({"part": part, "index": idx, "bytes_hex": hex(&bytes)}),
+                    rank: idx,
+                });
+            }
+            if confirmed == 0 {
+                for (block, block_end, status, _) in &narrows {
+                    ctx.machinery_error(format!(
+                        "part {}: a child ended with `{}` but its block {}..{} completes when re-run alone",
+                        part, status, block, block_end
+                    ));
                 }
             }
         }
